@@ -63,6 +63,9 @@ func (w *faultWriter) Write(p []byte) (int, error) {
 type faultReaderAt struct {
 	data  []byte
 	limit int
+	// eofWithData: a read that ends exactly at the end of the input returns
+	// its bytes together with io.EOF (io.ReaderAt allows either)
+	eofWithData bool
 }
 
 func (r *faultReaderAt) ReadAt(p []byte, off int64) (int, error) {
@@ -85,7 +88,7 @@ func (r *faultReaderAt) ReadAt(p []byte, off int64) (int, error) {
 		return 0, io.EOF
 	}
 	n := copy(p, r.data[off:])
-	if n < len(p) {
+	if n < len(p) || (r.eofWithData && off+int64(n) == int64(len(r.data)) && n > 0) {
 		return n, io.EOF
 	}
 	return n, nil
@@ -330,6 +333,7 @@ func TestC18Readers(t *testing.T) {
 					{"truncated/ReaderAt", func() io.Reader { return bytes.NewReader(b[:k]) }},
 					{"truncated/Reader", func() io.Reader { return &faultReader{data: b[:k], limit: k} }},
 					{"fault/ReaderAt", func() io.Reader { return readerAtOnly{&faultReaderAt{data: b, limit: k}} }},
+					{"fault/ReaderAt(EOF with the last bytes)", func() io.Reader { return readerAtOnly{&faultReaderAt{data: b, limit: k, eofWithData: true}} }},
 					{"fault/Reader", func() io.Reader { return &faultReader{data: b, limit: k, chunk: 512} }},
 				}
 				for _, a := range attempts {
